@@ -156,6 +156,12 @@ class Conv:
                                 todo.append(ib)
             for (pp, i), pb in self.F.promoted.items():
                 pass
+        # lengths may be compared with computed bounds (`8 * N`): close the small constants under products
+        small = sorted(c for c in cs if 2 <= c <= 64)
+        for x in small:
+            for y in small:
+                if x <= y and x * y <= 1024:
+                    cs.add(x * y)
         dom = {0}
         for c in cs:
             for dlt in (-1, 0, 1):
@@ -593,11 +599,21 @@ def tpath(repo, t):
     return None
 
 
+def norm_cell(c):
+    """`be8(limbs[i])[k]` of a four-limb little-endian-limbed integer is byte 8·(3−i)+k of its big-endian image"""
+    if isinstance(c, T) and c[0] == "be8" and isinstance(c[1], T) and c[1][0] == "idx" and isinstance(c[1][2], int) and 0 <= c[1][2] < 4:
+        limbs = c[1][1]
+        if isinstance(limbs, T) and limbs[0] == "field" and limbs[2] == 0:
+            return T("be", limbs[1], 8 * (3 - c[1][2]) + c[2])
+    return c
+
+
 def byte_runs(repo, cv, cells, base_ap=None):
     """[(a, b, source path or None, canonical?)] — maximal runs of cells that are consecutive bytes 0..31 of the big-endian
     image of one 256-bit value; literal cells are reported as ('lit', value)."""
     out = []
     i = 0
+    cells = [norm_cell(c) for c in cells]
     n = len(cells)
     while i < n:
         c = cells[i]
